@@ -29,6 +29,15 @@ Outcomes are canonicalised as ['ok', repr of the deep-frozen value] or ['err', e
              thread imports stdnum.util and waits for the package): this is the caller's first import of
              the package, not a lazy load of the library, so it is counted in
              distribution['cold_package_import'] and NOT reported as a violation.
+  getcc      many fresh processes in which 16 threads ask util.get_cc_module for the same country module at the
+             same moment (first use); the answers of the threads must agree.
+  schedule   a FORCED schedule of two threads for every country submodule that is a real file (be/vat, gb/vat,
+             no/iban, ...): thread A performs the first import and is held (by a trace function, i.e. a scheduler
+             emulation; the code under test is untouched) between "module in sys.modules, _initializing false"
+             and "module bound as attribute of its package"; thread B calls the library.  On the current tree
+             util.get_cc_module then returns None for an existing module and iban/eu.vat/vatin cache that None
+             for the life of the process — reported under the site
+             'stdnum/util.py:get_cc_module:return getattr(mod, name, None)'.
   alias      for calls returning containers: no mutable object (dict/list/set/bytearray) is shared between
              two successive results of the same call, nor between a result and anything reachable from
              stdnum.numdb._open_databases or from the globals of any loaded stdnum module.
@@ -717,7 +726,10 @@ def search(seed, tier):
         if site in seen_sites:
             continue
         seen_sites.add(site)
-        prefix, confirmed = minimise(req['descs'][:i], d, exp)
+        if len(seen_sites) <= 6:
+            prefix, confirmed = minimise(req['descs'][:i], d, exp)
+        else:   # many root-cause candidates already minimised: keep the run short, give the tail of the history
+            prefix, confirmed = req['descs'][max(0, i - 25):i], None
         failing.append(case_of(d, show(o), show(exp), 'outcome after a call history with mutated results = fresh outcome', site,
                                history=[short(x) for x in prefix],
                                extra={'history_length_before_minimisation': i, 'minimised_history_reproduces': confirmed}))
@@ -959,6 +971,12 @@ def replay(case):
         return case
     d = {'module': case['module'], 'function': case['function'], 'args': [common.rebuild(a) for a in case['args']],
          'kwargs': {k: common.rebuild(v) for k, v in case.get('kwargs', {}).items()}}
+    if case.get('site') == SITE_GETCC and d['function'] == 'get_cc_module':
+        cc, nm = d['args']
+        pkg = cc + '_' if cc in ('in', 'is', 'if') else cc
+        r = spawn({'mode': 'schedule', 'cc': cc, 'name': nm, 'target': 'stdnum.%s.%s' % (pkg, nm), 'consumers': [],
+                   'preimport': ['stdnum', 'stdnum.iban', 'stdnum.vatin', 'stdnum.eu.vat']})
+        return case if ('error' in r or r['result'].get('get_cc_module_is_None')) else None
     fresh = spawn({'mode': 'ref', 'descs': [d]})
     if 'error' in fresh:
         return case
